@@ -3,6 +3,7 @@ package main
 import (
 	"context"
 	"fmt"
+	"reflect"
 	"strings"
 
 	"github.com/formancehq/ledger/internal/engine/utils/batching"
@@ -44,7 +45,11 @@ func batcherScenario(name string, maxBatch int, producers [][]int, failAt int) *
 			s.Spawn(fmt.Sprintf("producer%d", pi), false, func() {
 				for _, it := range items {
 					it := it
-					b.Append(it, func() {
+					// (called through reflection: the callback's signature is the component's business - a tree that hands it
+					// an error, say, must still be judged rather than fail to build)
+					appendFn := reflect.ValueOf(b).MethodByName("Append")
+					cbType := appendFn.Type().In(1)
+					cb := reflect.MakeFunc(cbType, func([]reflect.Value) []reflect.Value {
 						acked[it]++
 						if !insertedDone[it] && viol == "" {
 							viol, vkey = fmt.Sprintf("item %d was acknowledged before the insert call holding it returned", it), "ack-before-insert"
@@ -52,7 +57,13 @@ func batcherScenario(name string, maxBatch int, producers [][]int, failAt int) *
 						if acked[it] == 1 {
 							done.Send(it)
 						}
+						out := make([]reflect.Value, cbType.NumOut())
+						for i := range out {
+							out[i] = reflect.Zero(cbType.Out(i))
+						}
+						return out
 					})
+					appendFn.Call([]reflect.Value{reflect.ValueOf(it), cb})
 				}
 				// like a request: wait until every item has been acknowledged
 				for range items {
